@@ -248,6 +248,234 @@ fn run_case(rt: &tokio::runtime::Runtime, book: Option<&AddressBook>, salt: u64,
     Verdict { answer: if answers.is_empty() { "-".into() } else { answers.join(" ") }, fails, final_idx }
 }
 
+/// One operation on a node's address-book entry: a record arriving through `insert_transport_info` /
+/// `update_transports`, or a complete `NodeInfo` (with these transports, or none) through `insert_node_info` /
+/// `NodeInfo::verify`.
+#[derive(Clone, Debug, PartialEq, Eq)]
+enum BookOp {
+    Transport(RecSpec),
+    NodeInfo(Option<RecSpec>),
+}
+
+impl BookOp {
+    fn token(&self) -> String {
+        match self {
+            BookOp::Transport(r) => format!("+{}", r.token()),
+            BookOp::NodeInfo(Some(r)) => format!("={}", r.token()),
+            BookOp::NodeInfo(None) => "=-".to_string(),
+        }
+    }
+    fn parse(t: &str) -> BookOp {
+        if let Some(r) = t.strip_prefix('+') {
+            BookOp::Transport(RecSpec::parse(r))
+        } else if t == "=-" {
+            BookOp::NodeInfo(None)
+        } else {
+            BookOp::NodeInfo(Some(RecSpec::parse(t.strip_prefix('=').expect("op prefix"))))
+        }
+    }
+    fn rec(&self) -> Option<&RecSpec> {
+        match self {
+            BookOp::Transport(r) | BookOp::NodeInfo(Some(r)) => Some(r),
+            BookOp::NodeInfo(None) => None,
+        }
+    }
+}
+
+/// Both entry points on one node's entry. `book = None`: `NodeInfo::verify` / `update_transports` directly on a
+/// value (a valid complete NodeInfo replaces the value, as the actor does); `Some`: the real actor + SQLite.
+fn run_ops(rt: &tokio::runtime::Runtime, book: Option<&AddressBook>, salt: u64, node: u64, ops: &[BookOp]) -> Verdict {
+    let mut world = World::new(salt);
+    let node_id = world.key(node).verifying_key();
+    let recs: Vec<RecSpec> = ops.iter().filter_map(|o| o.rec().cloned()).collect();
+    let infos: Vec<TransportInfo> = recs.iter().map(|r| world.build(r)).collect();
+    let mut pure: Option<NodeInfo> = None; // the entry when no actor is used
+    let mut answers = vec![];
+    let mut fails: Vec<(String, String)> = vec![];
+    let mut ri = 0usize; // index into recs of the current op's record
+    let mut prev_stored: Option<Option<usize>> = None; // previous stored index (None = nothing stored)
+    let mut final_idx = None;
+    for (k, op) in ops.iter().enumerate() {
+        let my_idx = op.rec().map(|_| {
+            ri += 1;
+            ri - 1
+        });
+        let (word, stored): (String, Option<TransportInfo>) = match op {
+            BookOp::Transport(_) => {
+                let info = infos[my_idx.unwrap()].clone();
+                match book {
+                    None => {
+                        let mut ni = pure.clone().unwrap_or_else(|| NodeInfo::new(node_id));
+                        let r = ni.update_transports(info);
+                        let w = match &r {
+                            Ok(true) => "t".to_string(),
+                            Ok(false) => "f".to_string(),
+                            Err(e) => err_word(e).to_string(),
+                        };
+                        if r.is_ok() {
+                            pure = Some(ni);
+                        }
+                        (w, pure.as_ref().and_then(|n| n.transports.clone()))
+                    }
+                    Some(book) => {
+                        let r = rt.block_on(book.insert_transport_info(node_id, info));
+                        let w = match &r {
+                            Ok(true) => "t".to_string(),
+                            Ok(false) => "f".to_string(),
+                            Err(AddressBookError::NodeInfo(e)) => err_word(e).to_string(),
+                            Err(e) => format!("Eactor({})", e.to_string().replace(' ', "_")),
+                        };
+                        let ni = rt.block_on(book.node_info(node_id)).expect("node_info");
+                        (w, ni.and_then(|n| n.transports))
+                    }
+                }
+            }
+            BookOp::NodeInfo(_) => {
+                let mut ni = NodeInfo::new(node_id);
+                ni.transports = my_idx.map(|i| infos[i].clone());
+                match book {
+                    None => {
+                        let r = ni.verify();
+                        let w = match &r {
+                            Ok(()) => if pure.is_none() { "n".to_string() } else { "u".to_string() },
+                            Err(e) => err_word(e).to_string(),
+                        };
+                        if r.is_ok() {
+                            pure = Some(ni);
+                        }
+                        (w, pure.as_ref().and_then(|n| n.transports.clone()))
+                    }
+                    Some(book) => {
+                        let r = rt.block_on(book.insert_node_info(ni));
+                        let w = match &r {
+                            Ok(true) => "n".to_string(),
+                            Ok(false) => "u".to_string(),
+                            Err(AddressBookError::NodeInfo(e)) => err_word(e).to_string(),
+                            Err(e) => format!("Eactor({})", e.to_string().replace(' ', "_")),
+                        };
+                        let ni = rt.block_on(book.node_info(node_id)).expect("node_info");
+                        (w, ni.and_then(|n| n.transports))
+                    }
+                }
+            }
+        };
+        let stored_idx: Option<Option<usize>> = stored.as_ref().map(|s| infos.iter().position(|i| i == s));
+        let got: Option<usize> = stored_idx.flatten();
+        // ---- oracle (property level, independent of the Lean model) --------------------------------------------
+        let mut fail = |tag: &str, what: String| {
+            if fails.len() < 4 {
+                fails.push((tag.to_string(), format!("op {k} ({}): {what}", op.token())));
+            }
+        };
+        let authentic = op.rec().map(|r| r.authentic(node)).unwrap_or(true);
+        let before = prev_stored.flatten();
+        if matches!(stored_idx, Some(None)) {
+            fail("foreign-stored", "the stored transport info equals none of the records of this case".into());
+        }
+        if let Some(g) = got {
+            if !recs[g].authentic(node) {
+                let tag = if matches!(op, BookOp::NodeInfo(_)) { "unverified-nodeinfo-stored" } else { "forged-stored" };
+                fail(tag, format!("the stored record is #{g} ({}), which fails verification for node {node}", recs[g].token()));
+            }
+        }
+        if !authentic {
+            // a record / node info that fails verification: rejected, entry unchanged
+            if !word.starts_with('E') {
+                let tag = if matches!(op, BookOp::NodeInfo(_)) { "unverified-nodeinfo-accepted" } else { "wrong-result" };
+                fail(tag, format!("returned {word} although the transports fail verification for node {node}"));
+            }
+            if got != before {
+                fail("unverified-changed-entry", format!("stored changed from {:?} to {:?}", before.map(|b| recs[b].token()), got.map(|g| recs[g].token())));
+            }
+        } else {
+            match op {
+                BookOp::NodeInfo(_) => {
+                    // documented local override: a valid node info replaces the entry whatever the timestamps
+                    let want = my_idx.map(|i| infos.iter().position(|x| *x == infos[i]).unwrap());
+                    if got != want || word.starts_with('E') {
+                        fail("valid-nodeinfo-not-stored", format!("returned {word}, stored {:?}", got.map(|g| recs[g].token())));
+                    }
+                }
+                BookOp::Transport(r) => {
+                    let newer = before.map(|b| r.ts() > recs[b].ts()).unwrap_or(true);
+                    let want = if newer { infos.iter().position(|x| *x == infos[my_idx.unwrap()]) } else { before };
+                    if got != want {
+                        fail("not-newest", format!("stored {:?}, expected {:?}", got.map(|g| recs[g].token()), want.map(|g| recs[g].token())));
+                    }
+                    if (word == "t") != newer || word.starts_with('E') {
+                        fail("wrong-result", format!("returned {word}, newer than stored: {newer}"));
+                    }
+                }
+            }
+        }
+        answers.push(format!("{word}:{}", match stored_idx { None => "-".to_string(), Some(None) => "?".to_string(), Some(Some(i)) => i.to_string() }));
+        prev_stored = Some(got);
+        final_idx = got;
+    }
+    Verdict { answer: if answers.is_empty() { "-".into() } else { answers.join(" ") }, fails, final_idx }
+}
+
+fn emit_ops(out: &mut Out, ctx: &mut Ctx, actor: bool, node: u64, ops: &[BookOp]) {
+    ctx.salt += 1;
+    let mode = if actor { "ni-actor" } else { "ni-pure" };
+    let req = format!("{mode} {node} {}", ops.iter().map(|o| o.token()).collect::<Vec<_>>().join(" "));
+    let v = run_ops(&ctx.rt, if actor { Some(&ctx.book) } else { None }, ctx.salt, node, ops);
+    // nt: a node info whose transports fail verification is inserted after an authentic record was stored
+    let mut have_auth = false;
+    let mut nt = false;
+    for o in ops {
+        match o {
+            BookOp::NodeInfo(Some(r)) if !r.authentic(node) && have_auth => nt = true,
+            _ => {}
+        }
+        if let Some(r) = o.rec() {
+            if r.authentic(node) {
+                have_auth = true;
+            }
+        }
+    }
+    let n = out.case(req.trim_end(), &v.answer, nt);
+    out.count(&format!("mode={mode}"));
+    if nt {
+        out.count("nontrivial:nodeinfo");
+    }
+    for o in ops {
+        let kind = match o {
+            BookOp::Transport(r) => if r.authentic(node) { "op:transport-authentic" } else { "op:transport-forged" },
+            BookOp::NodeInfo(None) => "op:nodeinfo-without-transports",
+            BookOp::NodeInfo(Some(r @ RecSpec::Trusted { .. })) => if r.authentic(node) { "op:nodeinfo-trusted-matching" } else { "op:nodeinfo-trusted-mismatching" },
+            BookOp::NodeInfo(Some(r)) => if r.authentic(node) { "op:nodeinfo-signed-authentic" } else { "op:nodeinfo-signed-forged" },
+        };
+        out.count(kind);
+    }
+    for w in v.answer.split_whitespace() {
+        out.count(&format!("result:{}", w.split(':').next().unwrap_or("")));
+    }
+    for (tag, what) in &v.fails {
+        out.oracle_fail(n, tag, what, req.trim_end(), &v.answer);
+    }
+}
+
+fn gen_ops(rng: &mut Rng, node: u64, n: usize) -> Vec<BookOp> {
+    let distinct = !rng.chance(1, 6);
+    let recs = gen_set(rng, node, n, distinct);
+    let mut ops: Vec<BookOp> = vec![];
+    // most cases start with an authentic record being stored
+    if rng.chance(3, 4) {
+        let ts = gen_ts(rng, 10);
+        ops.push(BookOp::Transport(RecSpec::Auth { ts, payload: 900, key: node, sts: ts, spayload: 900 }));
+    }
+    for r in recs {
+        let op = match rng.below(10) {
+            0..=4 => BookOp::NodeInfo(Some(r)),
+            5 => BookOp::NodeInfo(None),
+            _ => BookOp::Transport(r),
+        };
+        ops.push(op);
+    }
+    ops
+}
+
 /// "nt" rule: the set contains a forged (non-authentic) record whose timestamp is the largest of all, and at
 /// least one authentic record.
 fn nontrivial(node: u64, recs: &[RecSpec]) -> bool {
@@ -452,7 +680,13 @@ fn main() {
         let text = std::fs::read_to_string(args.replay.as_ref().expect("replay file")).unwrap();
         let v: hc::serde_json::Value = hc::serde_json::from_str(&text).unwrap();
         let req = v["request"].as_str().unwrap().to_string();
-        if req.starts_with("order-set") {
+        if req.starts_with("ni-") {
+            let mut it = req.split_whitespace();
+            let mode = it.next().unwrap();
+            let node: u64 = it.next().unwrap().parse().unwrap();
+            let ops: Vec<BookOp> = it.map(BookOp::parse).collect();
+            emit_ops(&mut out, &mut ctx, mode == "ni-actor", node, &ops);
+        } else if req.starts_with("order-set") {
             let (_, node, recs) = parse_request(&req);
             emit_all_orders(&mut out, &mut ctx, false, node, &recs);
         } else {
@@ -471,8 +705,16 @@ fn main() {
             if let Ok(text) = std::fs::read_to_string(&f) {
                 if let Ok(v) = hc::serde_json::from_str::<hc::serde_json::Value>(&text) {
                     if let Some(req) = v["request"].as_str() {
-                        let (actor, node, recs) = parse_request(req);
-                        emit(&mut out, &mut ctx, actor, node, &recs);
+                        if req.starts_with("ni-") {
+                            let mut it = req.split_whitespace();
+                            let mode = it.next().unwrap();
+                            let node: u64 = it.next().unwrap().parse().unwrap();
+                            let ops: Vec<BookOp> = it.map(BookOp::parse).collect();
+                            emit_ops(&mut out, &mut ctx, mode == "ni-actor", node, &ops);
+                        } else {
+                            let (actor, node, recs) = parse_request(req);
+                            emit(&mut out, &mut ctx, actor, node, &recs);
+                        }
                     }
                 }
             }
@@ -520,8 +762,37 @@ fn main() {
         let recs = gen_set(&mut rng, node, 4, true);
         emit_all_orders(&mut out, &mut ctx, true, node, &recs);
     }
+    // complete NodeInfo values through NodeInfo::verify / AddressBook::insert_node_info, mixed with arriving records
+    for line in [
+        "ni-actor 1 +A:5/0:10:1:5/0:10 =T:9/0:11:2 =T:1/0:12:1 =- =A:9/0:13:2:9/0:13 +A:2/0:14:1:2/0:14",
+        "ni-pure 1 +A:5/0:10:1:5/0:10 =T:9/0:11:2 =T:1/0:12:1 =- =A:9/0:13:2:9/0:13 +A:2/0:14:1:2/0:14",
+        "ni-actor 2 +A:5/0:10:2:5/0:10 =T:9/0:11:1,2 =A:1/0:12:2:1/0:12 =A:7/0:13:2:6/0:13 +A:3/0:14:2:3/0:14",
+    ] {
+        let mut it = line.split_whitespace();
+        let mode = it.next().unwrap();
+        let node: u64 = it.next().unwrap().parse().unwrap();
+        let ops: Vec<BookOp> = it.map(BookOp::parse).collect();
+        emit_ops(&mut out, &mut ctx, mode == "ni-actor", node, &ops);
+    }
+    let (n_ni_pure, n_ni_actor) = match args.tier {
+        Tier::Quick => (300, 150),
+        Tier::Thorough => (10_000, 3_000),
+        Tier::Search => (10_000, 2_000),
+    };
+    for _ in 0..n_ni_pure {
+        let node = 1 + rng.below(2);
+        let n = rng.range(1, 8) as usize;
+        let ops = gen_ops(&mut rng, node, n);
+        emit_ops(&mut out, &mut ctx, false, node, &ops);
+    }
+    for _ in 0..n_ni_actor {
+        let node = 1 + rng.below(2);
+        let n = rng.range(1, 7) as usize;
+        let ops = gen_ops(&mut rng, node, n);
+        emit_ops(&mut out, &mut ctx, true, node, &ops);
+    }
     out.finish(
-        "record sets per node: honestly signed, signed by another key, addresses changed after signing, timestamp changed after signing, trusted with matching / mismatching / no endpoint ids, exact re-deliveries; timestamps with equal wall clock and different lamport part; random arrival orders and ALL arrival orders for sets up to the permutation bound; mode pure = NodeInfo::update_transports, mode actor = AddressBook::insert_transport_info + node_info (actor + SQLite). non-trivial = the set contains authentic records and a forged record whose timestamp is strictly the largest",
+        "record sets per node: honestly signed, signed by another key, addresses changed after signing, timestamp changed after signing, trusted with matching / mismatching / no endpoint ids, exact re-deliveries; timestamps with equal wall clock and different lamport part; random arrival orders and ALL arrival orders for sets up to the permutation bound; mode pure = NodeInfo::update_transports, mode actor = AddressBook::insert_transport_info + node_info (actor + SQLite); modes ni-pure / ni-actor = operation sequences mixing arriving records with complete NodeInfo values (signed authentic / forged, trusted matching / mismatching / without transports) through NodeInfo::verify resp. AddressBook::insert_node_info, mostly after an authentic record was stored. non-trivial = the set contains authentic records and a forged record whose timestamp is strictly the largest",
         false,
     );
 }
